@@ -67,6 +67,8 @@ def vals_of(arr):
 
 
 POOL_TIES = False        # the sort-ties phase: the integer pool object holds [2, 0, 2]
+POOL_TABLE = False       # the alias-table phase: the components of the pool Vector are the columns of one 2-D table
+                         # (as for vectors made from the columns of a file): same abstract buffers, another memory layout
 
 
 class World:
@@ -76,7 +78,8 @@ class World:
         self.osyris = osyris
         self.objs = [A(np.array([3.0, 1.0, 2.0]), unit="m"), A(np.array([20.0, 30.0, 10.0]), unit="s"),
                      A(np.array([7.0, 5.0]), unit="m"), A(9.0, unit="m"),
-                     V(np.array([100.0, 300.0, 200.0]), np.array([4.0, 6.0, 5.0]), unit="cm"),
+                     (V(np.array([100.0, 300.0, 200.0]), np.array([4.0, 6.0, 5.0]), unit="cm") if not POOL_TABLE else
+                      (lambda tab: V(tab[:, 0], tab[:, 1], unit="cm"))(np.array([[100.0, 4.0], [300.0, 6.0], [200.0, 5.0]]))),
                      A(np.array([2, 0, 2] if POOL_TIES else [2, 0, 1], dtype=np.int64)), A(np.array([500.0, 700.0, 100.0]), unit="cm"),
                      A(np.array([6.0, 2.0, 4.0], dtype=np.float32), unit="m"), A(np.array([900.0, 900.0, 900.0]), unit="cm"),
                      A(np.array([600.0, 200.0, 400.0]), unit="cm")]
